@@ -102,14 +102,18 @@ class SafeLearner(Learner):
 
     @staticmethod
     def pred_format(std_pred:Pred, actions:Actions, og_pred:Pred = None):
-        unclear_format = CobaException("We were unable to determine the prediction format from the "
+        #The exceptions are made where they are raised. An exception that is made up front, kept in a local variable and then raised
+        #ends up in a reference cycle (exception -> traceback -> this frame -> the local). Only the cyclic garbage collector frees
+        #that, and until it runs everything the traceback refers to stays alive: the callers' frames and the generators they
+        #are reading from (with an OpenML environment these hold a lock on a cache entry and a download permit).
+        unclear_format = lambda: CobaException("We were unable to determine the prediction format from the "
         f"given value: {og_pred}. To work around this you can provide explicit format information by "
         "returnning a dict wrapper: {'pmf':<pred>}, {'action':<pred>}, or {'action_prob':<pred>}.")
-        no_act_two  = CobaException("We were given a two item pred without actions. We cannot tell "
+        no_act_two  = lambda: CobaException("We were given a two item pred without actions. We cannot tell "
         "if this is an action or action_prob. Please use explicit hints to let us know by returning "
         "either {'action':<pred>} or {'action_prob':<pred>}.")
-        no_act_pmf  = CobaException("We were given a PMF but there are no actions to choose from.")
-        bad_len_pmf = CobaException("We were given a PMF whose length did match len(actions).")
+        no_act_pmf  = lambda: CobaException("We were given a PMF but there are no actions to choose from.")
+        bad_len_pmf = lambda: CobaException("We were given a PMF whose length did match len(actions).")
         bad_len_ap  = lambda ap: CobaException("An explicit action_prob was passed but it is not "
         "a two piece tuple. A valid format has the form (<action>,<prob>). We were given {ap}.")
 
@@ -121,8 +125,8 @@ class SafeLearner(Learner):
         if isinstance(std_pred, dict):
             if 'pmf' in std_pred:
                 pmf = std_pred['pmf']
-                if not actions: raise no_act_pmf
-                if no_len(pmf) or len(pmf) != len(actions): raise bad_len_pmf
+                if not actions: raise no_act_pmf()
+                if no_len(pmf) or len(pmf) != len(actions): raise bad_len_pmf()
                 return 'PM*'
             if 'action' in std_pred:
                 return 'AX*'
@@ -141,7 +145,7 @@ class SafeLearner(Learner):
         elif len(std_pred) == 2:
             #pmf, action or [action,prob]
             if not actions:
-                raise no_act_two
+                raise no_act_two()
             elif any(std_pred[0] is a for a in actions):
                 #[action,prob] (this should always be correct due to _safe_actions)
                 #when could pred[0] be identified as action but it isn't?
@@ -174,7 +178,7 @@ class SafeLearner(Learner):
         if SafeLearner.possible_action(std_pred[0],actions):
             return 'AX'
 
-        raise unclear_format
+        raise unclear_format()
 
     @staticmethod
     def possible_pmf(item, actions):
